@@ -2944,6 +2944,15 @@ func (s *swamp) deleteHandler(key string, shadowDelete bool) (deletedTreasure tr
 	// adatával együtt vissza tudjuk adni.
 	clonedTreasure := treasureObj.Clone(guardID)
 
+	// Take the record out of the secondary indexes (key-order, time and value beacons) while it
+	// still carries its content: BodySetForDeletion below clears the content of a persisted
+	// record, and a record that is still listed in a value index without a value makes every
+	// concurrent re-sort of that index give up ("… is not an int64"), which can leave the index
+	// unsorted for good. The key index and the buckets keep their place in the sequence below
+	// (the pending delete marker must be queued before the key disappears from beaconKey), and
+	// the second deleteTreasureFromBeacons call there covers an index that was cold-built in between.
+	s.deleteTreasureFromBeacons(key)
+
 	// remove the treasure from the treasuresWaitingForWriter slice if the treasure does not have a loader pointer
 	// because it is meaning the treasure is not saved yet to the chroniclerInterface, but it is deleted from the swamp
 	if treasureObj.GetFileName() == nil {
